@@ -54,7 +54,7 @@ func profiles(prop string) []hist.Profile {
 		return []hist.Profile{
 			{Name: "ack", Ops: 120, Topics: 2, Subs: 3, POrdered: 0.35, PFilter: 0.3, PDL: 0.35, PRetry: 0.6, Decoy: true,
 				Keys: []string{"", "k1", "k2"}, MaxAttempt: []int32{2, 3, 5},
-				W: weights(map[string]int{"ack": 22, "stale": 14, "modack": 8, "nack": 8, "pull-due": 12, "sweep": 5, "job": 8, "seek-time": 1, "seek-snapshot": 0, "snapshot": 0, "stream": 6, "foreign": 3, "delete-sub": 0, "delete-topic": 0})},
+				W: weights(map[string]int{"ack": 22, "ack-fault": 6, "stale": 14, "modack": 8, "nack": 8, "pull-due": 12, "sweep": 5, "job": 8, "seek-time": 1, "seek-snapshot": 0, "snapshot": 0, "stream": 6, "foreign": 3, "delete-sub": 0, "delete-topic": 0})},
 		}
 	case "C04":
 		return []hist.Profile{
